@@ -47,6 +47,9 @@ func runOnce(c Case) (observed, bool) {
 // check decides one case: pure function of the case (the oracle is insensitive to
 // the client's map iteration order).
 func check(c Case) verdict {
+	if c.Payload == "sequence" {
+		return checkSequence(c)
+	}
 	o, ok := runOnce(c)
 	if !ok {
 		for i := 0; i < 2 && !ok; i++ {
@@ -380,6 +383,19 @@ func buildSweeps(thorough bool, r *report.R) []sweep {
 		}
 		return withAO(c, authsD[i[4]], obs[i[5]]), true
 	}})
+	// ---- E: adaptive multipart sequences (state that outlives a request) ----
+	authsE := []authMode{{"none", 0}, {"op", 1}}
+	rts := []string{"same", "fresh"}
+	stepsE := []int{2, 3}
+	r.Set("sweepE_sequences", map[string]any{"where": seqWheres, "pattern": seqPatterns, "position": seqPos, "runtime": rts, "steps": stepsE, "auth": authsE,
+		"adaptive": "step k embeds the boundaries read from the Content-Type headers of steps 1..k-1"})
+	sweeps = append(sweeps, sweep{"E:adaptive-multipart-sequences", []int{len(seqWheres), len(seqPatterns), len(seqPos), len(rts), len(stepsE), len(authsE), len(obs)}, func(i []int) (Case, bool) {
+		sp := SeqSpec{Where: seqWheres[i[0]], Pattern: seqPatterns[i[1]], Pos: seqPos[i[2]], Runtime: rts[i[3]], Steps: stepsE[i[4]]}
+		if !sp.valid() {
+			return Case{}, false // CR/LF in a file name is outside the alphabet
+		}
+		return withAO(Case{Payload: "sequence", Media: runtime.MultipartFormMime, Seq: &sp}, authsE[i[5]], obs[i[6]]), true
+	}})
 	return sweeps
 }
 
@@ -418,7 +434,11 @@ func main() {
 	if r.Replay != "" {
 		var c Case
 		r.LoadReplay(&c)
-		o, ok := runOnce(c)
+		var o observed
+		ok := false
+		if c.Payload != "sequence" {
+			o, ok = runOnce(c)
+		}
 		v := check(c)
 		fmt.Printf("replay %s\n", show(c))
 		if ok {
@@ -495,5 +515,5 @@ func main() {
 		pprof.StopCPUProfile()
 	}
 	exhaustive := !hung.Load()
-	r.Finish("eight full products (A nil/value/reader payloads; B URL-encoded forms; C1 one-file contents; C2 form structures; C3 names; D1 upload sources and D2 reader payloads with Seek/ReadAt/WriteTo capabilities x honest/failing/lying x Close errors x a read fault at the k-th Read x chunking; D3 real FIFOs), each tuple executed once on Runtime.CreateHttpRequest and the sent body read to EOF; in D a delivered fault permits a failed build or send, every success is held to the exact-bytes oracle; non-trivial = a non-nil payload produced a request whose sent bytes were parsed/compared with the reference (distinct by construction: the enumerators never repeat a tuple, sweeps differ in payload kind, shape or source)", exhaustive)
+	r.Finish("nine full products (A nil/value/reader payloads; B URL-encoded forms; C1 one-file contents; C2 form structures; C3 names; D1 upload sources and D2 reader payloads with Seek/ReadAt/WriteTo capabilities x honest/failing/lying x Close errors x a read fault at the k-th Read x chunking; D3 real FIFOs; E adaptive sequences of 2-3 multipart requests on one Runtime or fresh ones, each later request embedding the boundaries read from the earlier requests' Content-Type headers in file content / field value / file name), each tuple executed once on Runtime.CreateHttpRequest and the sent body read to EOF; in D a delivered fault permits a failed build or send, every success is held to the exact-bytes oracle; non-trivial = a non-nil payload produced a request whose sent bytes were parsed/compared with the reference (distinct by construction: the enumerators never repeat a tuple, sweeps differ in payload kind, shape or source)", exhaustive)
 }
